@@ -112,6 +112,11 @@ impl TilemapData {
         self.height
     }
 
+    /// The largest tile id used by this tilemap, if it has any tiles.
+    pub(crate) fn max_tile_id(&self) -> Option<u32> {
+        self.tiles.iter().map(|tile| tile.id.0).max()
+    }
+
     pub fn tile(&self, x: u16, y: u16) -> Option<&Tile> {
         if x >= self.width || y >= self.height {
             return None;
